@@ -275,3 +275,340 @@ Theorem C18_heap_alloc_failure_run_is :
   exf_run = MergeHeapDefs.cJSONUtils_MergePatchCaseSensitive exf_oracle (Some 1%positive) (Some 10%positive) exh_heap /\
   exf_after = out_heap exf_run exh_heap /\ exf_oracle = (fun k => Nat.eqb k 4).
 Proof. exact exf_run_is. Qed.
+
+(** ================================================================================================
+    6. GENERATION at heap level: generate_merge_patch / compare_json / cJSONUtils_GenerateMergePatch[CaseSensitive]
+
+    GenMergeHeapDefs.v transliterates [compare_json], [generate_merge_patch] and the two public entry points of
+    cJSON_Utils.c statement by statement on the memory model of Heap.v: cJSON_CreateNull for a NULL [to],
+    cJSON_Duplicate(to, 1) when one side is no object, the heap-level sort_object of C19 (SortDefs.v) on [from]
+    and on [to] IN PLACE, cJSON_CreateObject, the merge walk over the two sorted member chains with a plain
+    strcmp on the names (from-only member: cJSON_AddItemToObject(patch, name, cJSON_CreateNull()); to-only
+    member: a duplicate; same name: compare_json — itself transliterated, with its in-place sorting of every
+    object it meets — and, when different, the recursive call), every result of cJSON_AddItemToObject ignored as
+    in the C text, and the final cJSON_Delete of an empty patch.  The theorems below say that this code REFINES
+    the value-level model MergeDefs.v, hence every statement of Properties_C18.v about generation speaks about
+    the heap-level run.
+
+    Reading guide (beyond the one at the top of this file).
+    [from], [to] are ANY two nodes of the forest — roots or members of a larger document (the C functions never
+    touch next / prev / string of the operands themselves) — whose subtrees are disjoint ([tdisj]).
+    [gdoc t]: every member of an object node of [t] has a name and every string node a valuestring (without
+    them the C code dereferences NULL or leaks: [C18_heap_gen_keyless_member_leaks], [_keyless_null_deref],
+    [_string_without_value_null_deref]).
+    [treord t t']: [t'] is [t] with member lists reordered at any level (same identities, same data).
+    [Frame F F' S]: same roots, same (identity, data) pairs, and every node entry (identity, data, children
+    identities) of [F] whose identity is outside [S] is a node entry of [F'].
+    [res : option tree]: NULL, or the NEW root that is returned. *)
+From CJ Require Import GenMergeHeapDefs GenMergeHeapForest GenMergeHeapCompare GenMergeHeapProofs GenMergeHeapEntry
+  GenMergeHeapCompose GenMergeHeapCons GenMergeHeapEx.
+From CJ Require MergePerm MergeLemmas CoreRefineFrame CoreRefineHistory.
+
+(** ------------------------------------------------------------------ 6.1 vocabulary *)
+Theorem C18_heap_gen_tdisj_is : forall a b, tdisj a b <-> (forall x, x ∈ ids_t a -> x ∉ ids_t b).
+Proof. exact (fun a b => conj (fun H => H) (fun H => H)). Qed.
+Theorem C18_heap_gen_gdoc_is : forall t,
+  gdoc t <->
+  (forall n, n ∈ nodes_t t ->
+     (Tree.tymask (rd_type (tdata n)) = c_cJSON_Object -> forall c, c ∈ tchildren n -> rd_key (tdata c) <> None) /\
+     (Tree.tymask (rd_type (tdata n)) = c_cJSON_String -> rd_vstr (tdata n) <> None)).
+Proof. exact (fun t => conj (fun H => H) (fun H => H)). Qed.
+Theorem C18_heap_gen_treord_intro : forall i d cs mid cs',
+  Forall2 treord cs mid -> mid ≡ₚ cs' -> treord (T i d cs) (T i d cs').
+Proof. exact treord_intro. Qed.
+Theorem C18_heap_gen_treord_inv : forall t t', treord t t' ->
+  tid t' = tid t /\ tdata t' = tdata t /\ exists mid, Forall2 treord (tchildren t) mid /\ mid ≡ₚ tchildren t'.
+Proof. exact treord_inv. Qed.
+(** a reordering keeps the node identities, the (identity, data) pairs, the size, the nesting depth, [gdoc] *)
+Theorem C18_heap_gen_treord_keeps : forall t t', treord t t' ->
+  ids_t t' ≡ₚ ids_t t /\ CoreRefineFrame.datas [t'] ≡ₚ CoreRefineFrame.datas [t] /\ tsize t' = tsize t /\ height t' = height t /\ (gdoc t -> gdoc t').
+Proof.
+  exact (fun t t' H => conj (treord_ids t t' H) (conj (treord_datas t t' H) (conj (treord_tsize t t' H)
+           (conj (treord_height t t' H) (treord_gdoc t t' H))))).
+Qed.
+Theorem C18_heap_gen_frame_is : forall G G' S,
+  Frame G G' S <->
+  roots G' = roots G /\ CoreRefineFrame.datas G' ≡ₚ CoreRefineFrame.datas G /\ (forall e : fnode, e ∈ flat G -> fn_id e ∉ S -> e ∈ flat G').
+Proof.
+  exact (fun G G' S => conj (fun H => conj (fr_roots _ _ _ H) (conj (fr_datas _ _ _ H) (fr_flat _ _ _ H)))
+                            (fun H => mkFrame _ _ _ (proj1 H) (proj1 (proj2 H)) (proj2 (proj2 H)))).
+Qed.
+(** what a frame means for the rest of the forest: a subtree outside [S] is literally still there *)
+Theorem C18_heap_gen_frame_untouched : forall G G' S t,
+  Frame G G' S -> NoDup (ids G') -> find_tree (tid t) G = Some t -> (forall x, x ∈ ids_t t -> x ∉ S) ->
+  find_tree (tid t) G' = Some t.
+Proof. exact frame_find. Qed.
+Print Assumptions C18_heap_gen_frame_untouched.
+(** JSON documents in the sense of C18 satisfy [gdoc] *)
+Theorem C18_heap_gen_doc_gdoc : forall St t, Rfc7396.m7396_doc (reify St t) = true -> gdoc t.
+Proof. exact (fun St t H => gd_gdoc St t (MergeLemmas.m7396_doc_gd _ H)). Qed.
+Print Assumptions C18_heap_gen_doc_gdoc.
+
+(** ------------------------------------------------------------------ 6.2 compare_json *)
+
+(** [compare_json(a, b, case_sensitive)] with the fuel of the heap: no memory-error outcome; the heap afterwards
+    encodes a forest that differs from the one before only inside the two operands, which are reorderings of
+    themselves (the in-place sorts); no string block is touched and nothing is allocated ([h_next]); the boolean
+    and the two operands afterwards, reified, are what the value-level model computes on the reified operands *)
+Theorem C18_heap_gen_compare_refines : forall (flag : bool) h F a b ta tb,
+  MInv h F -> find_tree a F = Some ta -> find_tree b F = Some tb -> tdisj ta tb -> gdoc ta -> gdoc tb ->
+  exists h' F' (r : bool) ta' tb',
+    compare_json (Some a) (Some b) flag h = Ret (r, h') /\
+    MInv h' F' /\ (NoLeak h F -> NoLeak h' F') /\ h_str h' = h_str h /\ h_next h' = h_next h /\
+    Frame F F' (ids_t ta ++ ids_t tb) /\
+    find_tree a F' = Some ta' /\ find_tree b F' = Some tb' /\ treord ta ta' /\ treord tb tb' /\
+    MergeDefs.mp_compare_json_top flag (reify (h_str h) ta) (reify (h_str h) tb) =
+      Ok (r, reify (h_str h) ta', reify (h_str h) tb').
+Proof. exact compare_json_refines. Qed.
+Print Assumptions C18_heap_gen_compare_refines.
+
+(** ------------------------------------------------------------------ 6.3 generate_merge_patch *)
+
+(** MAIN THEOREM.  [generate_merge_patch(from, to, case_sensitive)] with the fuel the entry points take from the
+    heap, for two non-NULL nodes with disjoint subtrees that satisfy [gdoc], [to] nested at most LIMIT deep, the
+    never-failing allocator:
+      - returns normally (no memory-error outcome) NULL or the identity of a root [res];
+      - the heap afterwards satisfies the invariant for [F' ++ res]: [res] is a NEW last root, and [F'] differs
+        from [F] only inside [from] and [to] ([Frame]; in particular the roots are the same and every other
+        subtree is literally the same tree, [C18_heap_gen_frame_untouched]);
+      - [from] and [to] are reorderings of themselves, and reified they are what the value-level model says they
+        are; the reified result IS the value-level result;
+      - nothing is leaked, no string of the old forest is touched. *)
+Theorem C18_heap_gen_refines : forall (flag : bool) h F f t tf tt,
+  MInv h F -> find_tree f F = Some tf -> find_tree t F = Some tt -> tdisj tf tt ->
+  gdoc tf -> gdoc tt -> (height tt <= Z.to_nat c_CJSON_CIRCULAR_LIMIT)%nat ->
+  exists h' F' (res : option tree) tf' tt',
+    generate_merge_patch nofail (Some f) (Some t) flag h = Ret (tid <$> res, h') /\
+    MInv h' (F' ++ opt_list res) /\
+    Frame F F' (ids_t tf ++ ids_t tt) /\
+    find_tree f F' = Some tf' /\ find_tree t F' = Some tt' /\ treord tf tf' /\ treord tt tt' /\
+    MergeDefs.mp_GenerateMergePatch_gen flag (Some (reify (h_str h) tf)) (Some (reify (h_str h) tt)) =
+      Ok (reify (h_str h') <$> res, Some (reify (h_str h') tf'), Some (reify (h_str h') tt')) /\
+    (NoLeak h F -> NoLeak h' (F' ++ opt_list res)) /\ KeepO h h' F.
+Proof. exact generate_refines. Qed.
+Print Assumptions C18_heap_gen_refines.
+
+(** the public functions are the two case modes of it, as on the value level *)
+Theorem C18_heap_gen_entry_points : forall oracle from to,
+  GenMergeHeapDefs.cJSONUtils_GenerateMergePatch oracle from to = generate_merge_patch oracle from to false /\
+  GenMergeHeapDefs.cJSONUtils_GenerateMergePatchCaseSensitive oracle from to = generate_merge_patch oracle from to true.
+Proof. exact generate_entry_points. Qed.
+Theorem C18_value_gen_entry_points :
+  MergeDefs.cJSONUtils_GenerateMergePatch = MergeDefs.mp_GenerateMergePatch_gen false /\
+  MergeDefs.cJSONUtils_GenerateMergePatchCaseSensitive = MergeDefs.mp_GenerateMergePatch_gen true.
+Proof. exact (conj eq_refl eq_refl). Qed.
+
+(** NULL arguments.  [to == NULL]: "patch to delete everything", a new null node; [from == NULL]:
+    !cJSON_IsObject(NULL), so a duplicate of [to] *)
+Theorem C18_heap_gen_null_to : forall (flag : bool) h F (from : ptr),
+  MInv h F ->
+  let t := T (h_next h) (CoreRefineHistory.rd_typed c_cJSON_NULL) [] in
+  exists h', generate_merge_patch nofail from None flag h = Ret (Some (tid t), h') /\
+    MInv h' (F ++ [t]) /\ (NoLeak h F -> NoLeak h' (F ++ [t])) /\ h_str h' = h_str h /\
+    forall vfrom, MergeDefs.mp_GenerateMergePatch_gen flag vfrom None = Ok (Some (reify (h_str h') t), vfrom, None).
+Proof. exact generate_null_to. Qed.
+Print Assumptions C18_heap_gen_null_to.
+Theorem C18_heap_gen_null_from : forall (flag : bool) h F t tt,
+  MInv h F -> find_tree t F = Some tt -> (height tt <= Z.to_nat c_CJSON_CIRCULAR_LIMIT)%nat ->
+  exists h' tc, generate_merge_patch nofail None (Some t) flag h = Ret (Some (tid tc), h') /\
+    MInv h' (F ++ [tc]) /\ (NoLeak h F -> NoLeak h' (F ++ [tc])) /\ KeepO h h' F /\
+    MergeDefs.mp_GenerateMergePatch_gen flag None (Some (reify (h_str h) tt)) =
+      Ok (Some (reify (h_str h') tc), None, Some (reify (h_str h) tt)).
+Proof. exact generate_null_from. Qed.
+Print Assumptions C18_heap_gen_null_from.
+
+(** the same at EVERY level of the recursion and for any sufficient fuel, with a passive part [X] of the forest
+    (inside the recursion [X] holds the patch under construction): [df] bounds the nesting of [to], [lf] the
+    member chains and the sort *)
+Theorem C18_heap_gen_every_level : forall (df lf : nat) (flag : bool) tf tt h G X,
+  (tsize tt <= df)%nat ->
+  MInv h (G ++ X) -> find_tree (tid tf) G = Some tf -> find_tree (tid tt) G = Some tt -> tdisj tf tt ->
+  (tsize tf + tsize tt < lf)%nat -> gdoc tf -> gdoc tt -> (height tt <= Z.to_nat c_CJSON_CIRCULAR_LIMIT)%nat ->
+  exists h' G' (res : option tree) tf' tt',
+    generate_merge_patch_fuel nofail df lf (Some (tid tf)) (Some (tid tt)) flag h = Ret (tid <$> res, h') /\
+    MInv h' ((G' ++ X) ++ opt_list res) /\
+    (NoLeak h (G ++ X) -> NoLeak h' ((G' ++ X) ++ opt_list res)) /\
+    KeepO h h' (G ++ X) /\ Frame G G' (ids_t tf ++ ids_t tt) /\
+    find_tree (tid tf) G' = Some tf' /\ find_tree (tid tt) G' = Some tt' /\ treord tf tf' /\ treord tt tt' /\
+    forall fv, (height tt < fv)%nat ->
+      MergeDefs.mp_generate_merge_patch fv flag (reify (h_str h) tf) (reify (h_str h) tt) =
+      Ok (reify (h_str h') <$> res, reify (h_str h) tf', reify (h_str h) tt').
+Proof.
+  exact (fun df lf flag tf tt h G X Hdf I Hf Ht Hd Hlf Gf Gt Hh =>
+           gen_rec df lf flag tf tt h G X Hdf (conj I (conj Hf (conj Ht (conj Hd (conj Hlf (conj Gf (conj Gt Hh)))))))).
+Qed.
+Print Assumptions C18_heap_gen_every_level.
+
+(** the fuel of the entry points suffices: two disjoint subtrees of a well-formed forest have together fewer
+    nodes than identities were handed out *)
+Theorem C18_heap_gen_fuel : forall h F tf tt,
+  WF h F -> tf ∈ nodes F -> tt ∈ nodes F -> tdisj tf tt -> (tsize tf + tsize tt < Pos.to_nat (h_next h))%nat.
+Proof. exact two_subtrees_fuel. Qed.
+
+(** THE LEDGER, exactly: before the call the live library blocks are those of the forest; afterwards those of
+    the forest and of the result, and the two sets are disjoint — the blocks of the result are the only new ones,
+    and every intermediate block (the duplicated keys that cJSON_AddItemToObject replaces, an empty patch) has
+    been released *)
+Theorem C18_heap_gen_ledger : forall (flag : bool) h F f t tf tt,
+  MInv h F -> NoLeak h F -> find_tree f F = Some tf -> find_tree t F = Some tt -> tdisj tf tt ->
+  gdoc tf -> gdoc tt -> (height tt <= Z.to_nat c_CJSON_CIRCULAR_LIMIT)%nat ->
+  exists h' F' (res : option tree),
+    generate_merge_patch nofail (Some f) (Some t) flag h = Ret (tid <$> res, h') /\
+    WF h' (F' ++ opt_list res) /\ NoLeak h' (F' ++ opt_list res) /\
+    (forall b, b ∈ lib_live h <-> b ∈ owned F) /\
+    (forall b, b ∈ lib_live h' <-> b ∈ owned F \/ b ∈ owned (opt_list res)) /\
+    (forall b, b ∈ owned F -> b ∉ owned (opt_list res)) /\
+    (forall b, b ∈ owned F -> h_str h' !! b = h_str h !! b).
+Proof. exact generate_ledger. Qed.
+Print Assumptions C18_heap_gen_ledger.
+
+(** for EVERY allocation-failure schedule the two functions are conservative (C07's generic half) *)
+Theorem C18_heap_gen_conservative : forall oracle from to flag, Cons (generate_merge_patch oracle from to flag).
+Proof. exact Cons_generate_merge_patch. Qed.
+Print Assumptions C18_heap_gen_conservative.
+Theorem C18_heap_gen_compare_conservative : forall a b flag, Cons (compare_json a b flag).
+Proof. exact Cons_compare_json. Qed.
+
+(** ------------------------------------------------------------------ 6.4 the round trip at heap level *)
+
+(** [C18_generate] / [C18_generate_library] for the heap-level code: [from] a root, [to] a node outside it, both
+    JSON documents in the sense of C18 below the duplication depth limit, no null member in [to].  The heap-level
+    cJSONUtils_GenerateMergePatchCaseSensitive returns NULL — then [from] and [to] are equal documents — or a
+    patch root [s]; and the heap-level cJSONUtils_MergePatchCaseSensitive(from, s) (section 2 of this file), run
+    in the heap the generation ended in, returns a root that is EQUAL AS A DOCUMENT to [to] (as it is afterwards,
+    and as it was before), with [to] and the patch untouched and nothing leaked *)
+Theorem C18_heap_gen_roundtrip : forall h F f t tf tt,
+  MInv h F -> find_root f F = Some tf -> find_tree t F = Some tt -> tdisj tf tt ->
+  Rfc7396.m7396_doc (reify (h_str h) tf) = true -> Rfc7396.m7396_doc (reify (h_str h) tt) = true ->
+  Rfc7396.no_null_member (reify (h_str h) tt) = true ->
+  Rfc7396.m7396_depth_ok (reify (h_str h) tf) = true -> Rfc7396.m7396_depth_ok (reify (h_str h) tt) = true ->
+  exists h1 F1 (res : option tree) tf' tt',
+    GenMergeHeapDefs.cJSONUtils_GenerateMergePatchCaseSensitive nofail (Some f) (Some t) h = Ret (tid <$> res, h1) /\
+    MInv h1 (F1 ++ opt_list res) /\ (NoLeak h F -> NoLeak h1 (F1 ++ opt_list res)) /\
+    find_root f F1 = Some tf' /\ find_tree t F1 = Some tt' /\ treord tf tf' /\ treord tt tt' /\
+    MergePerm.dperm (reify (h_str h) tt) (reify (h_str h1) tt') /\
+    match res with
+    | None => Rfc7396.doc_eq (reify (h_str h1) tf') (reify (h_str h1) tt') = true /\
+              Rfc7396.doc_eq (reify (h_str h1) tf') (reify (h_str h) tt) = true
+    | Some s =>
+        let G := remove_root f F1 ++ [s] in
+        exists h2 ty,
+          MergeHeapDefs.cJSONUtils_MergePatchCaseSensitive nofail (Some f) (Some (tid s)) h1 = Ret (Some (tid ty), h2) /\
+          MInv h2 (G ++ [ty]) /\ (NoLeak h F -> NoLeak h2 (G ++ [ty])) /\
+          find_root (tid ty) (G ++ [ty]) = Some ty /\
+          find_tree t (G ++ [ty]) = Some tt' /\ reify (h_str h2) tt' = reify (h_str h1) tt' /\
+          Rfc7396.doc_eq (reify (h_str h2) ty) (reify (h_str h1) tt') = true /\
+          Rfc7396.doc_eq (reify (h_str h2) ty) (reify (h_str h) tt) = true
+    end.
+Proof. exact generate_then_merge. Qed.
+Print Assumptions C18_heap_gen_roundtrip.
+
+(** ------------------------------------------------------------------ 6.5 non-vacuity *)
+
+(** [exg_heap]: from (root 1) {"a":"b","c":{"d":1,"x":2}}, to (root 10) {"c":{"d":2},"e":[1]}.  Every hypothesis
+    of [C18_heap_gen_refines], [_ledger] and [_roundtrip] holds. *)
+Theorem C18_heap_gen_nonvacuous_hypotheses :
+  MInv exg_heap exg_F /\ NoLeak exg_heap exg_F /\
+  find_root 1%positive exg_F = Some exg_from /\ find_tree 1%positive exg_F = Some exg_from /\
+  find_tree 10%positive exg_F = Some exg_to /\
+  tdisj exg_from exg_to /\ gdoc exg_from /\ gdoc exg_to /\ (height exg_to <= Z.to_nat c_CJSON_CIRCULAR_LIMIT)%nat /\
+  Rfc7396.m7396_doc (reify (h_str exg_heap) exg_from) = true /\
+  Rfc7396.m7396_doc (reify (h_str exg_heap) exg_to) = true /\
+  Rfc7396.no_null_member (reify (h_str exg_heap) exg_to) = true /\
+  Rfc7396.m7396_depth_ok (reify (h_str exg_heap) exg_from) = true /\
+  Rfc7396.m7396_depth_ok (reify (h_str exg_heap) exg_to) = true.
+Proof. exact exg_hypotheses. Qed.
+Print Assumptions C18_heap_gen_nonvacuous_hypotheses.
+
+(** The heap-level code RUN on it ([vm_compute]): returns the new root 1000; read back by the structural walk
+    [CoreOps.dump_node] (every chain healthy) the result is {"a":null,"c":{"d":2,"x":null},"e":[1]} = what the
+    value-level model computes; the RFC 7396 evaluator applied to [from] and this patch gives [to]; both inputs
+    read back as they were; the ledger is the two inputs and 12 new blocks (the same count a probe on /repo
+    reports), the two key copies that came with the duplicates of "d":2 and "e":[1] have been released. *)
+Theorem C18_heap_gen_nonvacuous_run :
+  out_val exg_run = Some (Some 1000%positive) /\
+  out_val (CoreOps.dump_node 50 (Some 1000%positive) exg_after) = Some (Some (exg_patch, true)) /\
+  MergeDefs.cJSONUtils_GenerateMergePatchCaseSensitive (Some (reify exg_St exg_from)) (Some (reify exg_St exg_to)) =
+    Ok (Some exg_patch, Some (reify exg_St exg_from), Some (reify exg_St exg_to)) /\
+  Rfc7396.merge (Some (reify exg_St exg_from)) exg_patch = reify exg_St exg_to /\
+  out_val (CoreOps.dump_node 50 (Some 1%positive) exg_after) = Some (Some (reify exg_St exg_from, true)) /\
+  out_val (CoreOps.dump_node 50 (Some 10%positive) exg_after) = Some (Some (reify exg_St exg_to, true)) /\
+  bool_decide (lib_live exg_after =
+               list_to_set (owned exg_F ++ [1000; 1001; 1002; 1003; 1004; 1006; 1007; 1008; 1009; 1010; 1012; 1013]%positive)) = true /\
+  forallb (fun b => bool_decide (b ∉ h_live exg_after)) [1005; 1011]%positive = true.
+Proof. exact exg_result. Qed.
+Print Assumptions C18_heap_gen_nonvacuous_run.
+Theorem C18_heap_gen_nonvacuous_run_is :
+  exg_run = GenMergeHeapDefs.cJSONUtils_GenerateMergePatchCaseSensitive nofail (Some 1%positive) (Some 10%positive) exg_heap /\
+  exg_after = out_heap exg_run exg_heap.
+Proof. exact exg_run_is. Qed.
+
+(** … [C18_heap_gen_refines] instantiated on that very run … *)
+Theorem C18_heap_gen_nonvacuous_instance :
+  exists F' s tf' tt',
+    exg_run = Ret (Some (tid s), exg_after) /\ tid s = 1000%positive /\
+    MInv exg_after (F' ++ [s]) /\ NoLeak exg_after (F' ++ [s]) /\
+    find_tree 1%positive F' = Some tf' /\ find_tree 10%positive F' = Some tt' /\ treord exg_from tf' /\ treord exg_to tt' /\
+    reify (h_str exg_after) s = exg_patch /\
+    reify (h_str exg_after) tf' = reify exg_St exg_from /\ reify (h_str exg_after) tt' = reify exg_St exg_to /\
+    Rfc7396.merge (Some (reify (h_str exg_after) tf')) (reify (h_str exg_after) s) = reify (h_str exg_after) tt'.
+Proof. exact exg_instance. Qed.
+Print Assumptions C18_heap_gen_nonvacuous_instance.
+
+(** … and the round trip: the heap-level cJSONUtils_MergePatchCaseSensitive(from, patch) RUN in the heap the
+    generation ended in returns [from]'s pointer, [from] now reads back as {"c":{"d":2},"e":[1]} = [to], the patch
+    and [to] read back unchanged; and [C18_heap_gen_roundtrip] instantiated on the two runs *)
+Theorem C18_heap_gen_nonvacuous_roundtrip :
+  out_val exg_run2 = Some (Some 1%positive) /\
+  out_val (CoreOps.dump_node 50 (Some 1%positive) exg_after2) = Some (Some (reify exg_St exg_to, true)) /\
+  out_val (CoreOps.dump_node 50 (Some 1000%positive) exg_after2) = Some (Some (exg_patch, true)) /\
+  out_val (CoreOps.dump_node 50 (Some 10%positive) exg_after2) = Some (Some (reify exg_St exg_to, true)).
+Proof. exact exg_roundtrip. Qed.
+Print Assumptions C18_heap_gen_nonvacuous_roundtrip.
+Theorem C18_heap_gen_nonvacuous_roundtrip_is :
+  exg_run2 = MergeHeapDefs.cJSONUtils_MergePatchCaseSensitive nofail (Some 1%positive) (Some 1000%positive) exg_after /\
+  exg_after2 = out_heap exg_run2 exg_after.
+Proof. exact exg_run2_is. Qed.
+Theorem C18_heap_gen_nonvacuous_roundtrip_instance :
+  exists ty, exg_run2 = Ret (Some (tid ty), exg_after2) /\ tid ty = 1%positive /\
+    Rfc7396.doc_eq (reify (h_str exg_after2) ty) (reify exg_St exg_to) = true.
+Proof. exact exg_compose_instance. Qed.
+Print Assumptions C18_heap_gen_nonvacuous_roundtrip_instance.
+
+(** ------------------------------------------------------------------ 6.6 the hypothesis [gdoc] cannot be dropped *)
+
+(** A member of [from] WITHOUT a name (what cJSON_AddItemToArray(object, item) builds), [to] = {}: every other
+    hypothesis holds; cJSON_AddItemToObject(patch, NULL, cJSON_CreateNull()) refuses, generate_merge_patch ignores
+    the refusal, returns NULL ("no patch"), and the null item — block 1001, without links — stays allocated,
+    unreachable: [NoLeak] fails.  (Confirmed on /repo: NULL is returned and one allocation is outstanding after
+    both inputs are deleted.) *)
+Theorem C18_heap_gen_keyless_member_leaks :
+  MInv exn_heap1 exn_F1 /\ NoLeak exn_heap1 exn_F1 /\
+  find_tree 1%positive exn_F1 = Some exn_from1 /\ find_tree 10%positive exn_F1 = Some exn_to1 /\
+  tdisj exn_from1 exn_to1 /\ gdoc exn_to1 /\ (height exn_to1 <= Z.to_nat c_CJSON_CIRCULAR_LIMIT)%nat /\ ~ gdoc exn_from1 /\
+  out_val exn_run1 = Some None /\
+  bool_decide (lib_live exn_after1 = list_to_set [1; 2; 10; 1001]%positive) = true /\
+  h_lnk exn_after1 !! 1001%positive = Some (None, None) /\
+  ~ NoLeak exn_after1 exn_F1.
+Proof. exact keyless_from_member_leaks. Qed.
+Print Assumptions C18_heap_gen_keyless_member_leaks.
+Theorem C18_heap_gen_keyless_run_is :
+  exn_run1 = GenMergeHeapDefs.cJSONUtils_GenerateMergePatchCaseSensitive nofail (Some 1%positive) (Some 10%positive) exn_heap1 /\
+  exn_after1 = out_heap exn_run1 exn_heap1.
+Proof. exact exn_run1_is. Qed.
+
+(** Members without a name on BOTH sides: strcmp(from_child->string, to_child->string) reads through NULL.
+    (On /repo: SEGV in strcmp called from generate_merge_patch.) *)
+Theorem C18_heap_gen_keyless_null_deref :
+  MInv exn_heap2 [exn_from1; exn_to2] /\
+  out_err (GenMergeHeapDefs.cJSONUtils_GenerateMergePatchCaseSensitive nofail (Some 1%positive) (Some 10%positive) exn_heap2) = Some NullDeref.
+Proof. exact keyless_members_null_deref. Qed.
+Print Assumptions C18_heap_gen_keyless_null_deref.
+
+(** Two string nodes WITHOUT a valuestring under the same name: compare_json calls strcmp(a->valuestring,
+    b->valuestring).  (On /repo: SEGV in strcmp called from compare_json.) *)
+Theorem C18_heap_gen_string_without_value_null_deref :
+  MInv exn_heap3 [exn_from3; exn_to3] /\
+  out_err (GenMergeHeapDefs.cJSONUtils_GenerateMergePatchCaseSensitive nofail (Some 1%positive) (Some 10%positive) exn_heap3) = Some NullDeref.
+Proof. exact string_without_value_null_deref. Qed.
+Print Assumptions C18_heap_gen_string_without_value_null_deref.
